@@ -18,4 +18,4 @@ Extraction "../ocaml/model.ml" sn_ctor sn_serialize sn_getint value_int_hex_str 
   do_exec tf_run print_value
   main_noninteractive svf_parse_flags svf_names session_listing marked_line main_initial_flags
   tce_new tce_iterate tap_run
-  configure setup_txdata pushonly_violation tx_checker signature_hash signature_hash_schnorr legacy_preimage bip143_preimage bip341_msg txdata_init parse_pretend_valid.
+  configure setup_txdata pushonly_violation tx_checker signature_hash signature_hash_schnorr legacy_preimage bip143_preimage bip341_msg txdata_init parse_pretend_valid witness_limits_violation.
